@@ -29,6 +29,17 @@ type RespP struct {
 	N   int
 }
 
+// RespVU / RespPU are the response types of the "upgraded" plugins (C09: the process that restarts after the crash runs a
+// newer plugin release whose response type no longer decodes what the old release stored: N changed from int to string).
+type RespVU struct {
+	Tag string
+	N   string
+}
+type RespPU struct {
+	Tag string
+	N   string
+}
+
 const (
 	PlugAct  = "verif/lab.act"
 	PlugActP = "verif/lab.actp"
@@ -42,6 +53,8 @@ type plug struct {
 	check bool
 	ptr   bool
 	lab   *Lab
+	// upgraded: Response() declares (and Execute returns) RespVU / *RespPU
+	upgraded bool
 }
 
 func (p *plug) Name() string  { return p.name }
@@ -54,7 +67,12 @@ func (p *plug) Request() any {
 	return ReqV{}
 }
 func (p *plug) Response() any {
-	if p.ptr {
+	switch {
+	case p.upgraded && p.ptr:
+		return &RespPU{}
+	case p.upgraded:
+		return RespVU{}
+	case p.ptr:
 		return &RespP{}
 	}
 	return RespV{}
@@ -147,6 +165,12 @@ func (p *plug) Execute(ctx context.Context, req any) (any, *plugins.Error) {
 	}
 	l.exit(tag, ref, n, st.Out, ctx)
 
+	if p.upgraded && (st.Out == OK || st.Out == Overrun) {
+		if p.ptr {
+			return &RespPU{Tag: tag, N: fmt.Sprint(n)}, nil
+		}
+		return RespVU{Tag: tag, N: fmt.Sprint(n)}, nil
+	}
 	switch st.Out {
 	case OK:
 		if p.ptr {
@@ -186,15 +210,27 @@ func (p *plug) Execute(ctx context.Context, req any) (any, *plugins.Error) {
 
 const overrunGuard = 8 * time.Second
 
-func (l *Lab) newRegistry() *registry.Register {
+// newRegistry registers the four scripted plugins. With swap (Scenario.SwapTypes) the two names of each kind exchange
+// their request/response types: plugin names are unique within one registry only, and thousands of scenarios with their
+// own registries run in one process, so anything the engine remembers per plugin NAME across registries shows.
+func (l *Lab) newRegistry(swap bool) *registry.Register { return l.newRegistryUp(swap, false) }
+
+func (l *Lab) newRegistryUp(swap, upgraded bool) *registry.Register {
 	reg := registry.New()
 	for _, p := range []*plug{
-		{name: PlugAct, lab: l},
-		{name: PlugActP, ptr: true, lab: l},
-		{name: PlugChk, check: true, lab: l},
-		{name: PlugChkP, check: true, ptr: true, lab: l},
+		{name: PlugAct, ptr: swap, lab: l},
+		{name: PlugActP, ptr: !swap, lab: l},
+		{name: PlugChk, check: true, ptr: swap, lab: l},
+		{name: PlugChkP, check: true, ptr: !swap, lab: l},
 	} {
+		p.upgraded = upgraded
 		reg.MustRegister(p)
 	}
 	return reg
+}
+
+// NewUpgradedRegistry returns a registry whose plugins have the same names and request types but an incompatible
+// response type (see RespVU).
+func NewUpgradedRegistry(sc *Scenario) *registry.Register {
+	return (&Lab{}).newRegistryUp(sc != nil && sc.SwapTypes, true)
 }
